@@ -186,7 +186,7 @@ class Builder:
         if op == "Dn":
             return ufl.Dn(B(r[1]))
         if op == "restr":
-            return B(r[1])(r[2])
+            return ufl.as_ufl(B(r[1]))(r[2])  # (math functions of literals fold to python floats)
         if op == "jumpn":
             return ufl.jump(B(r[1]), self.n)
         if op == "diff":
